@@ -210,6 +210,8 @@ impl Directive {
                 }
             }
             Directive::Device => {
+                #[cfg(feature = "verif-hooks")]
+                crate::verif_hooks::point("directive.device");
                 if let DirectiveOps::OpList(values) = opts {
                     if let Operand::E(Expr::Ident(value)) = &values[0] {
                         if let Some(device) = DEVICES.get(value.as_str()) {
@@ -243,6 +245,8 @@ impl Directive {
                 }
             }
             Directive::Include => {
+                #[cfg(feature = "verif-hooks")]
+                crate::verif_hooks::point("directive.include");
                 if let DirectiveOps::OpList(values) = &opts {
                     if let Operand::S(include) = &values[0] {
                         let context = ParseContext {
